@@ -11,8 +11,8 @@ import bisect
 import random
 import re
 
-from .common import Clause, run_parallel
-from .c03_tags import gen_tree, render_abbr, RE_NL
+from .common import Clause
+from .c03_tags import gen_tree, render_abbr, RE_NL, run_parallel_sorted
 
 MARKUP_SYNTAXES = ['html', 'xml', 'xsl', 'jsx', 'vue', 'svelte', 'pug', 'haml', 'slim']
 TAG_SYNTAXES = ['html', 'xml', 'xsl', 'jsx', 'vue', 'svelte']
@@ -258,7 +258,7 @@ def run(tier, seed):
                 'defaults + %d random (options, text, callback mode) rows per markup abbreviation and syntax, %d per stylesheet abbreviation (%d random sums per stylesheet syntax)' % (rows, max(rows // 2, 1), nr // 10),
                 'a case is one expand run; every callback invocation of the run is checked: result[offset:offset+len(ret)] == ret, unique '
                 'markers found exactly there, line/column recomputed from the result', exhaustive=False)
-    run_parallel(c1, 'bounded.c13', 'check_positions', position_cases(rng, nr, rows), chunk=300)
+    run_parallel_sorted(c1, 'bounded.c13', 'check_positions', position_cases(rng, nr, rows), chunk=300)
     c1.done()
 
     c2 = Clause('callback-positions-multiline-placeholder', 'B',
@@ -266,7 +266,7 @@ def run(tier, seed):
                 'output.field (returns the placeholder)' % (len(MULTILINE), len(MULTILINE_CSS)),
                 'all markup syntaxes x (defaults + %d random option rows); 3 stylesheet syntaxes' % rows,
                 'as callback-positions', exhaustive=False)
-    run_parallel(c2, 'bounded.c13', 'check_positions', multiline_cases(rng, rows), chunk=50)
+    run_parallel_sorted(c2, 'bounded.c13', 'check_positions', multiline_cases(rng, rows), chunk=50)
     c2.done()
 
     nt = 40000 if quick else 600000
@@ -275,7 +275,7 @@ def run(tier, seed):
                 '%d trees, depth <= 4, width <= 3, syntaxes %r, random options' % (nt, TAG_SYNTAXES),
                 'a case is (tree, syntax, options); the recorded output.field calls in output order must be exactly the empty attribute '
                 'values and empty leaves of the tree in document order, numbered 1..N, each located in its attribute / element', exhaustive=False)
-    run_parallel(c3, 'bounded.c13', 'check_tabstops', tabstop_cases(rng, nt, False), chunk=300)
+    run_parallel_sorted(c3, 'bounded.c13', 'check_tabstops', tabstop_cases(rng, nt, False), chunk=300)
     c3.done()
 
     c4 = Clause('tabstops-explicit', 'B',
@@ -283,6 +283,6 @@ def run(tier, seed):
                 '%d trees, depth <= 4, width <= 3, field numbers 0..4, up to 2 fields per value' % nt,
                 'a case is (tree, syntax, options); inside one value output number minus written number is constant; the number sets of '
                 'different values (including automatic tabstops) are disjoint; placeholders are passed unchanged', exhaustive=False)
-    run_parallel(c4, 'bounded.c13', 'check_tabstops', tabstop_cases(rng, nt, True), chunk=300)
+    run_parallel_sorted(c4, 'bounded.c13', 'check_tabstops', tabstop_cases(rng, nt, True), chunk=300)
     c4.done()
     return [c1, c2, c3, c4]
